@@ -297,6 +297,89 @@ def check_c20(tier):
                 V.violation(ex, "`fixtures unused` on a sub-directory: json and text output disagree")
         except ValueError:
             V.violation(ex, "`fixtures unused --format json` on a sub-directory is not valid JSON")
+    # ---- part 4: "the usage counts printed by `fixtures list` equal the number of references the server reports" on override
+    # chains whose self-requesting parameter is SPELLED in every way a signature allows (default value, keyword-only, annotation,
+    # positional-only, second position, wrapped line).  Oracle = the server's own find_references_for_definition on the same
+    # tree (no layer-R verdict on whether a defaulted parameter is a request); `fixtures unused` = the entries counted 0.
+    SPELL = {"plain": "n", "default": "n=None", "kwonly_default": "*, n=None", "annotated": "n: int", "annotated_default": "n: int = 0",
+             "posonly": "n, /", "second": "other, n", "second_default": "other, n=None", "wrapped": "\n    n,\n",
+             "wrapped_default": "\n    other,\n    n=None,\n", "kwonly": "*, n"}
+    C.build_harness()
+    sjobs = [(sp, where, above) for sp in sorted(SPELL) for where in ("sub_conftest", "test_module") for above in (False, True)]
+
+    def sp_files(sp, where, above):
+        ov = "@pytest.fixture\ndef n(%s):\n    return n\n" % SPELL[sp]
+        tests = "def test_1(n):\n    pass\n\n\ndef test_2(n, other):\n    pass\n"
+        files = {"conftest.py": "import pytest\n\n\n@pytest.fixture\ndef n():\n    return 0\n\n\n@pytest.fixture\ndef other():\n    return 1\n",
+                 "test_top.py": "def test_top(n):\n    pass\n"}
+        if where == "sub_conftest":
+            files["sub/conftest.py"] = "import pytest\n\n\n" + ov
+            files["sub/test_a.py"] = tests
+        else:
+            # `above`: the tests stand ABOVE the override in the module
+            files["sub/test_a.py"] = "import pytest\n\n\n" + ((tests + "\n\n" + ov) if above else (ov + "\n\n" + tests))
+        return files
+
+    def spjob(job):
+        n, (sp, where, above) = job
+        root = os.path.join(base, "sp%d" % n)
+        ws = os.path.join(root, "R")
+        files = sp_files(sp, where, above)
+        for rel, text in files.items():
+            os.makedirs(os.path.dirname(os.path.join(ws, rel)), exist_ok=True)
+            with open(os.path.join(ws, rel), "w") as fh:
+                fh.write(text)
+        try:
+            return {"list": lsp.run_cli(["fixtures", "list", ws])[:2], "unused": lsp.run_cli(["fixtures", "unused", ws])[:2],
+                    "unused_json": lsp.run_cli(["fixtures", "unused", ws, "--format", "json"])[:2]}
+        finally:
+            pass
+
+    spres = lsp.run_parallel(list(enumerate(sjobs)), spjob, workers=8)
+    hops, defs_of = [], {}
+    for n, (sp, where, above) in enumerate(sjobs):
+        ws = os.path.join(base, "sp%d" % n, "R")
+        files = sp_files(sp, where, above)
+        dl = []
+        for rel, text in sorted(files.items()):
+            ls = text.split("\n")
+            for i, l in enumerate(ls):
+                m = re.match(r"def (\w+)\(", l)
+                if m and i > 0 and ls[i - 1].startswith("@pytest.fixture"):
+                    dl.append((rel, i + 1, m.group(1)))
+        defs_of[n] = dl
+        hops.append({"id": n, "ops": [{"op": "scan", "root": ws}] + [{"op": "refs", "path": os.path.join(ws, rel), "line1": ln, "name": nm} for rel, ln, nm in dl]})
+    for res in C.run_harness(hops, threads=8):
+        n = res["id"]
+        sp, where, above = sjobs[n]
+        r = spres[n]
+        if r is None or "__exception__" in r:
+            raise C.ToolError("CLI job failed: %r" % (r,))
+        V.count()
+        V.nontriv(("spelling", sp, where, above))
+        trees += 1
+        srv_counts = {}
+        for (rel, ln, nm), ans in zip(defs_of[n], res["res"][1:]):
+            if not isinstance(ans, list):
+                raise C.ToolError("the library does not know the definition %s:%d %s (%r)" % (rel, ln, nm, ans))
+            srv_counts[(rel, nm)] = len(ans)
+        ent = parse_tree(r["list"][1])
+        counts = {(f, nm): count_of(i) for f, nm, i in ent}
+        ex = {"parameter_spelling": SPELL[sp], "override_in": where, "tests_above_override": above, "files": sp_files(sp, where, above),
+              "server_reference_counts": sorted((list(k), v) for k, v in srv_counts.items()),
+              "cli_counts": sorted((list(k), v) for k, v in counts.items())}
+        if counts != srv_counts:
+            V.violation(dict(ex, output=ANSI.sub("", r["list"][1])), "`fixtures list` usage counts differ from the number of references the server reports")
+        listed = set(parse_unused_text(r["unused"][1]))
+        want = {k for k, v in srv_counts.items() if v == 0}
+        if listed != want or (r["unused"][0] == 1) != bool(want):
+            V.violation(dict(ex, unused=sorted(map(list, listed)), exit=r["unused"][0]),
+                        "`fixtures unused` does not list exactly the fixtures the server reports no reference for (or its exit status disagrees)")
+        try:
+            if {(x["file"], x["fixture"]) for x in json.loads(r["unused_json"][1])} != listed:
+                V.violation(dict(ex, json=r["unused_json"][1]), "json and text output of `fixtures unused` list different entries")
+        except ValueError:
+            V.violation(dict(ex, json=r["unused_json"][1]), "`fixtures unused --format json` is not valid JSON")
     shutil.rmtree(base, ignore_errors=True)
     cov = L.tlc_cov(meta_lib, replayed + trees)
     cov["states"] += meta["distinct"]
